@@ -33,6 +33,11 @@ func (deb *Deb) CheckDebsig(validKeys openpgp.EntityList, sigType string) (signe
 	if err != nil {
 		return nil, fmt.Errorf("unable to find signed data: %v", err)
 	}
+	for _, member := range []*ArEntry{sig, binaryFlag, control, data} {
+		if member == nil || member.Data == nil {
+			return nil, fmt.Errorf("archive member without content")
+		}
+	}
 	binaryFlag.Data.Seek(0, 0)
 	control.Data.Seek(0, 0)
 	data.Data.Seek(0, 0)
